@@ -42,6 +42,32 @@ theorem strip_space_cons {s : List Char} (h : Trimmed s) : strip (' ' :: s) = s 
 
 theorem strip_nil : strip [] = [] := rfl
 
+/-- `int()` skips nothing that `str.strip()` keeps -/
+theorem isSpace_of_isIntSpace {c : Char} (h : isIntSpace c = true) : isSpace c = true := by
+  have hsub : ∀ n ∈ pyIntSpace, n ∈ pySpace := by decide
+  simp only [isIntSpace, isSpace, List.contains_iff_mem] at h ⊢
+  exact hsub _ h
+
+theorem stripIntL_of_head {s : List Char} (h : ∀ c, s.head? = some c → isSpace c = false) : stripIntL s = s := by
+  cases s with
+  | nil => rfl
+  | cons c cs =>
+    have hc := h c rfl
+    have : isIntSpace c = false := by
+      cases hi : isIntSpace c with
+      | false => rfl
+      | true => rw [isSpace_of_isIntSpace hi] at hc; exact absurd hc (by simp)
+    simp [stripIntL, List.dropWhile, this]
+
+theorem stripInt_of_trimmed {s : List Char} (h : Trimmed s) : stripInt s = s := by
+  unfold stripInt
+  rw [stripIntL_of_head h.1]
+  rw [stripIntL_of_head (s := s.reverse)]
+  · simp
+  · intro c hc
+    rw [List.head?_reverse] at hc
+    exact h.2 c hc
+
 /-! ## decimal digits -/
 
 /-- an ASCII digit -/
@@ -126,7 +152,7 @@ theorem pyInt_digits {ds : List Char} (hne : ds ≠ []) (h : ∀ c ∈ ds, Ascii
     have hc := asciiDigit_facts (h c (by simp))
     have hcs : ∀ x ∈ cs, AsciiDigit x := fun x hx => h x (by simp [hx])
     unfold pyInt?
-    rw [strip_of_trimmed htr]
+    rw [stripInt_of_trimmed htr]
     have h1 : ((c :: cs).head? == some '-') = false := by simp [hc.2.2.1]
     have h2 : ((c :: cs).head? == some '+') = false := by simp [hc.2.2.2.1]
     simp only [h1, h2, Bool.or_self, Bool.false_eq_true, if_false]
